@@ -654,6 +654,7 @@ theorem step_invN {s s' : State} {a : Act} (inv : InvN s) (hsc : inScopeN s a = 
     exact step_invN_openFresh inv hsc hstep
   | openFrom r g n ws id dir => simp [inScopeN] at hsc
   | release i => simp [inScopeN] at hsc
+  | lateWrite i t => simp [inScopeN] at hsc
   | flush i t => exact step_invN_simple inv trivial hstep
   | compact i rm add => exact step_invN_simple inv trivial hstep
   | snap i => exact step_invN_simple inv trivial hstep
